@@ -23,6 +23,11 @@ structure FOps (α : Type) where
   gt : α → α → Bool
   lt : α → α → Bool
 
+/-- `distance[a, b] = v` on a C array seen as a function of its two indices (round 5: the outer
+loops of `_supremum_distance_matrix_rp` are translated as folds over such stores) -/
+def store2 {α : Type} (d : Int → Int → α) (a b : Int) (v : α) : Int → Int → α :=
+  fun x y => if x = a ∧ y = b then v else d x y
+
 /-- C07's exact arithmetic with NaN -/
 def vOps : FOps V := ⟨some 0, absdiff, gtV, ltV⟩
 
